@@ -198,8 +198,13 @@ impl Mac {
         }?;
         let (mut tx_config, tx_channel) =
             self.region.create_tx_config(rng, self.configuration.data_rate, &Frame::Data);
+        // The level commanded by the network is one more upper bound, it does not
+        // replace the maximum the radio is able to output.
         tx_config.adjust_power(
-            self.configuration.tx_power.unwrap_or(self.board_eirp.max_power),
+            core::cmp::min(
+                self.configuration.tx_power.unwrap_or(self.board_eirp.max_power),
+                self.board_eirp.max_power,
+            ),
             self.board_eirp.antenna_gain,
         );
         Ok((tx_config, self.rx_windows(&tx_channel), fcnt))
@@ -229,7 +234,10 @@ impl Mac {
                 let (mut tx_config, _) =
                     self.region.create_tx_config(rng, self.configuration.data_rate, &Frame::Data);
                 tx_config.adjust_power(
-                    self.configuration.tx_power.unwrap_or(self.board_eirp.max_power),
+                    core::cmp::min(
+                        self.configuration.tx_power.unwrap_or(self.board_eirp.max_power),
+                        self.board_eirp.max_power,
+                    ),
                     self.board_eirp.antenna_gain,
                 );
                 (tx_config, fcnt_up)
